@@ -205,7 +205,15 @@ pub(crate) struct LockServer {
 async fn bind_all(address: &str) -> std::io::Result<Vec<tokio::net::TcpListener>> {
     let mut listeners = Vec::new();
     let mut last_err = None;
+    // the resolver may list an address more than once (a name entered twice in the hosts
+    // file): binding it a second time would collide with our own listener
+    let mut addrs: Vec<std::net::SocketAddr> = Vec::new();
     for addr in tokio::net::lookup_host(address).await? {
+        if !addrs.contains(&addr) {
+            addrs.push(addr);
+        }
+    }
+    for addr in addrs {
         match tokio::net::TcpListener::bind(addr).await {
             Ok(listener) => listeners.push(listener),
             Err(e) if e.kind() == std::io::ErrorKind::AddrInUse => return Err(e),
